@@ -9,6 +9,7 @@
 #include <Spectra/MatOp/SparseRegularInverse.h>
 #include <Spectra/MatOp/SymShiftInvert.h>
 #include "family_impl.h"
+#include "krylov_impl.h"
 
 namespace sim {
 
@@ -83,6 +84,14 @@ struct WorldGChol : WorldG<S>
 template <class S>
 struct WorldGRegInv : WorldG<S>
 {
+    // direct Krylov driver with the B-inner product: iterated operator inv(B) A, <x, y> = x'By
+    typedef Spectra::SymGEigsRegInvOp<SimOp<S>, SimOp<S>> ModeOp;
+    std::unique_ptr<ModeOp> mode_op;
+    std::unique_ptr<IKrylov> make_krylov() override
+    {
+        if (!mode_op) mode_op.reset(new ModeOp(*this->boxA.op, *this->boxB.op));
+        return std::unique_ptr<IKrylov>(new LanczosDriver<S, ModeOp, SimOp<S>>(*mode_op, *this->boxB.op, (long) this->spec.ncv));
+    }
     explicit WorldGRegInv(const WorldSpec& w) : WorldG<S>(w)
     {
         this->product_A();
